@@ -31,6 +31,8 @@ type replayGen struct {
 	pkg     *types.Package
 	imports map[string]string // path -> alias
 	sorts   *Sorts
+	usedNil bool
+	unknowns [][2]string
 }
 
 func (g *replayGen) typeStr(t types.Type) string {
@@ -112,6 +114,11 @@ func (g *replayGen) goLit(v string, t types.Type) (string, error) {
 			parts = append(parts, f.Name+": "+fl)
 		}
 		return g.typeStr(t) + "{" + strings.Join(parts, ", ") + "}", nil
+	case *types.Interface:
+		// opaque handle (logger, ledger, ...): replay with nil; a path that uses it panics and is
+		// then reported as a panic of the real code, which the caller classifies
+		g.usedNil = true
+		return "(" + g.typeStr(t) + ")(nil)", nil
 	case *types.Pointer:
 		args := splitSexpArgs(v)
 		if len(args) == 3 {
@@ -234,23 +241,47 @@ func (g *replayGen) smtPrinter(expr string, t types.Type, depth int) (string, bo
 		}
 		parts := []string{fmt.Sprintf("%q", "("+ss.Ctor)}
 		for i, f := range ss.Fields {
-			if !u.Field(i).Exported() && u.Field(i).Pkg() != g.pkg {
-				return "", false
+			var p string
+			ok := false
+			if u.Field(i).Exported() || u.Field(i).Pkg() == g.pkg {
+				p, ok = g.smtPrinter("("+expr+")."+f.Name, f.Type, depth+1)
 			}
-			p, ok := g.smtPrinter("("+expr+")."+f.Name, f.Type, depth+1)
 			if !ok {
-				return "", false
+				// unprintable field: a named unknown, declared when the clause is evaluated
+				p = fmt.Sprintf("%q", g.unknown(g.sorts.SortOf(f.Type)))
 			}
 			parts = append(parts, `" "`, p)
 		}
 		parts = append(parts, `")"`)
 		return strings.Join(parts, " + "), true
+	case *types.Array:
+		if u.Len() > 4096 {
+			return "", false
+		}
+		ep, ok := g.smtPrinter("("+expr+")[vpi]", u.Elem(), depth+1)
+		if !ok {
+			return "", false
+		}
+		return fmt.Sprintf("vpArray(%d, %q, %q, func(vpi int) string { return %s })", u.Len(), g.sorts.SortOf(u.Elem()), g.sorts.Zero(u.Elem()), ep), true
+	case *types.Slice:
+		ep, ok := g.smtPrinter("("+expr+")[vpi]", u.Elem(), depth+1)
+		if !ok {
+			return "", false
+		}
+		so := g.sorts.SortOf(t)
+		return fmt.Sprintf("\"(mk_%s \" + vpArray(len(%s), %q, %q, func(vpi int) string { return %s }) + fmt.Sprintf(\" 0 %%d %%d)\", len(%s), cap(%s))", so, expr, g.sorts.SortOf(u.Elem()), g.sorts.Zero(u.Elem()), ep, expr, expr), true
 	case *types.Interface:
 		if g.sorts.SortOf(t) == "Err" {
 			return fmt.Sprintf("vpErr(%s)", expr), true
 		}
 	}
 	return "", false
+}
+
+func (g *replayGen) unknown(sort string) string {
+	n := fmt.Sprintf("vpunk!%d", len(g.unknowns))
+	g.unknowns = append(g.unknowns, [2]string{n, sort})
+	return n
 }
 
 func replayImpl(w *World, root string, rep *OblReport, workDir string) (string, string) {
@@ -379,6 +410,7 @@ func replayImpl(w *World, root string, rep *OblReport, workDir string) (string, 
 		fmt.Fprintf(&b, "\t%s %q\n", g.imports[p], p)
 	}
 	b.WriteString(")\n\nfunc vpSigned(x int64) string {\n\tif x < 0 {\n\t\tif x == -9223372036854775808 {\n\t\t\treturn \"(- 9223372036854775808)\"\n\t\t}\n\t\treturn fmt.Sprintf(\"(- %d)\", -x)\n\t}\n\treturn fmt.Sprint(x)\n}\n\n")
+	b.WriteString("func vpArray(n int, es, zero string, at func(int) string) string {\n\ts := \"((as const (Array Int \" + es + \")) \" + zero + \")\"\n\tfor i := 0; i < n; i++ {\n\t\ts = \"(store \" + s + \" \" + fmt.Sprint(i) + \" \" + at(i) + \")\"\n\t}\n\treturn s\n}\n\n")
 	b.WriteString("func vpErr(e error) string {\n\tif e == nil {\n\t\treturn \"err_nil\"\n\t}\n\treturn \"vp_some_err\"\n}\n\n")
 	b.WriteString("func TestVerifReplay(t *testing.T) {\n\tdefer func() {\n\t\tif r := recover(); r != nil {\n\t\t\tfmt.Printf(\"VERIF-REPLAY-PANIC %v\\n\", r)\n\t\t}\n\t}()\n")
 	b.WriteString(body.String())
@@ -428,6 +460,11 @@ func replayImpl(w *World, root string, rep *OblReport, workDir string) (string, 
 		}
 	}
 	detail["outputs"] = outs
+	if panicked != "" && g.usedNil && strings.Contains(panicked, "nil pointer") {
+		detail["panic"] = panicked
+		db, _ := json.Marshal(detail)
+		return "REPLAY-UNAVAILABLE", "the replay passed nil for an opaque interface input and the path used it: " + string(db)
+	}
 	if panicked != "" {
 		detail["panic"] = panicked
 		db, _ := json.Marshal(detail)
@@ -443,7 +480,7 @@ func replayImpl(w *World, root string, rep *OblReport, workDir string) (string, 
 	}
 	_ = printable
 	// evaluate the failed clause on the concrete inputs/outputs
-	verdict, why := evalClauseConcrete(w, c, o, inSMT, outs, workDir, rep.Name)
+	verdict, why := evalClauseConcrete(w, c, o, inSMT, outs, workDir, rep.Name, g.unknowns)
 	detail["clause_eval"] = why
 	db, _ := json.Marshal(detail)
 	return verdict, string(db)
@@ -451,7 +488,7 @@ func replayImpl(w *World, root string, rep *OblReport, workDir string) (string, 
 
 // evalClauseConcrete re-evaluates the contract clause with parameters bound to the model's values
 // and results bound to what the real function returned.
-func evalClauseConcrete(w *World, c *Ctx, o *Obligation, inSMT, outs map[string]string, workDir, name string) (verdict, why string) {
+func evalClauseConcrete(w *World, c *Ctx, o *Obligation, inSMT, outs map[string]string, workDir, name string, unknowns [][2]string) (verdict, why string) {
 	defer func() {
 		if r := recover(); r != nil {
 			verdict, why = "REPLAY-UNAVAILABLE", fmt.Sprint("clause evaluation failed: ", r)
@@ -461,16 +498,19 @@ func evalClauseConcrete(w *World, c *Ctx, o *Obligation, inSMT, outs map[string]
 	sig := src.Obj.Type().(*types.Signature)
 	nc := newCtx(w, c.specs, "replay")
 	nc.sorts = c.sorts
+	for _, u := range unknowns {
+		nc.decls = append(nc.decls, fmt.Sprintf("(declare-const %s %s)", u[0], u[1]))
+	}
 	f := &Frame{c: nc, fn: src, info: src.Pkg.TypesInfo, top: true, tsubst: c.tsubst}
 	typeArgs := map[string]types.Type{}
 	for tp, t := range c.tsubst {
 		typeArgs[tp.Obj().Name()] = t
 	}
-	entry := &SpecEnv{names: map[string]Val{}, pkg: src.Pkg.Types, typeArgs: typeArgs}
+	entry := &SpecEnv{names: map[string]Val{}, pkg: src.Pkg.Types, typeArgs: typeArgs, macros: c.contract.macros()}
 	for _, in := range c.inputs {
 		entry.names[in.Name] = Val{T: inSMT[in.Name], Ty: in.Type}
 	}
-	post := &SpecEnv{names: map[string]Val{}, old: entry, pkg: entry.pkg, typeArgs: typeArgs}
+	post := &SpecEnv{names: map[string]Val{}, old: entry, pkg: entry.pkg, typeArgs: typeArgs, macros: entry.macros}
 	for k, v := range entry.names {
 		post.names[k] = v
 	}
@@ -500,9 +540,6 @@ func evalClauseConcrete(w *World, c *Ctx, o *Obligation, inSMT, outs map[string]
 		}
 	}
 	st := &State{env: map[types.Object]Val{}, gh: map[string]Val{}}
-	for _, l := range c.contract.Lets {
-		post.names[l.Name] = f.specEvalIn(st, l.Expr, post)
-	}
 	g := f.specBool(st, o.Clause.Expr, post)
 	q := &Obligation{Name: name + "-concrete", PC: st.pc, Goal: g, Ctx: nc}
 	neg, _ := discharge(buildQuery(q, true, false), workDir, q.Name+"-neg", 10, false)
